@@ -133,7 +133,7 @@ var allKeyTypes = append(append(append([]string{}, intTypes...), uintTypes...), 
 func genC14(t *rapid.T, tier string) C14Case {
 	c := C14Case{Mode: rapid.SampledFrom([]string{"layer", "layer", "layer", "compare", "compare", "tree"}).Draw(t, "mode")}
 	if c.Mode == "tree" {
-		h := genHist(t, tier, core.GenOpts{NoCustomV1: true, Caches: []string{"none", "big"}, BigOneIn: 15},
+		h := genHist(t, tier, core.GenOpts{NoCustomV1: true, Caches: []string{"none", "big"}, BigOneIn: 15, NoReversed: true},
 			core.OpWeights{core.OpInsert: 10, core.OpInsertNew: 20, core.OpUpdate: 5, core.OpDelete: 10, core.OpPersist: 6, core.OpReload: 2}, 25, 40, 30, 1)
 		c.Tree = &h
 		return c
